@@ -182,8 +182,15 @@ def body(chk):
                                    f"two-point atom {float(d.x[1])!r}", dict(replay, distribution=d.desc()))
 
     # ---- constraints read off random finite distributions ----
-    for it in range(n_rand * 2):
-        d = random_dist(rng)
+    extreme = []
+    for eps in (F(1, 1000), F(1, 400), F(3, 1000), F(1, 150)):
+        lo_, hi_ = F(rng.choice([0, -2, 5])), None
+        hi_ = lo_ + rng.choice([1, 4])
+        extreme.append(Dist([lo_, hi_], [1 - eps, eps], f"two-point, mass {float(eps)} at the top"))
+        extreme.append(Dist([lo_, hi_], [eps, 1 - eps], f"two-point, mass {float(eps)} at the bottom"))
+        extreme.append(Dist([lo_, (lo_ + hi_) / 2, hi_], [1 - 2 * eps, eps, eps], f"three-point, mass {float(eps)} in the upper tail"))
+    for it in range(n_rand * 2 + len(extreme)):
+        d = extreme[it - n_rand * 2] if it >= n_rand * 2 else random_dist(rng)
         if len(d.x) < 2:
             continue                     # min < max is part of the admissible constraints
         mn, mx, mu, var = d.x[0], d.x[-1], d.mean, d.var
